@@ -356,7 +356,21 @@ class Model(object):
             if self._ode_definition_map and variable is self.get_free_variable():
                 return 0
             raise ValueError('No definition set for ' + self.get_display_name(variable))
-        expr = expr.rhs
+
+        # A derivative stands for the right-hand side of its ODE, which may mention derivatives itself
+        def expand_derivatives(expr):
+            derivatives = expr.atoms(sympy.Derivative)
+            if not derivatives:
+                return expr
+            replacements = {}
+            for derivative in derivatives:
+                ode = self._ode_definition_map.get(derivative.args[0])
+                if ode is None or ode.lhs != derivative:
+                    raise ValueError('No definition set for ' + str(derivative))
+                replacements[derivative] = expand_derivatives(ode.rhs)
+            return expr.xreplace(replacements)
+
+        expr = expand_derivatives(expr.rhs)
         deps = expr.atoms(Variable)
         if deps:
             if evaluated is None:
